@@ -24,7 +24,6 @@ def classify(case):
 
 SPEC = dict(
     prop="C21",
-    disabled="under construction",
     coq_targets=["props/C21.vo"],
     drivers=[
         dict(name="policy", kind="main", pkg="./zzverif/c21",
@@ -34,8 +33,31 @@ SPEC = dict(
                      mismatch="Policy.mismatch", monitor="Policy.monitor_fail", prelude=_PRELUDE)),
     ],
     classify=classify,
-    rule="",
+    rule=("a fixed list of the shapes named in the property (no declaration, interface mismatch, deny and allow both matching, "
+          "the four levels disagreeing in both directions, slots-per-plug forms, $PLUG_PUBLISHER_ID with and without "
+          "declarations) followed by random candidates: 40% Check, 40% CheckAutoConnect, 20% InstallCandidate.Check. Each has "
+          "a random environment (on-classic, os id, core-desktop, optional model brand/model/store, optional store assertion "
+          "with friendly stores), plug and slot (name, interface from 3, snap type from app/gadget/kernel/os/snapd/base, "
+          "nested static and dynamic attributes), optional plug/slot snap-declarations and a base-declaration whose rules "
+          "(per interface: shortcut, or up to six subrules each a shortcut, one alternative or a list) carry 1-3 constraints "
+          "from plug-names/slot-names (literals, $INTERFACE, unknown $X), plug/slot-attributes (maps, alternatives, nested maps, "
+          "literals, $MISSING, $SLOT(path), $PLUG(path), $PLUG/SLOT_PUBLISHER_ID), snap types, snap ids, publisher ids (incl. "
+          "$PLUG/$SLOT_PUBLISHER_ID, unknown $X), slots-per-plug, on-classic (bool or distro list), on-core-desktop, "
+          "on-store/on-brand/on-model; presence per level is drawn so that each of the four levels decides in a fair share. "
+          "Every declaration is signed with an assertstest key and decoded from its text form. 4% of the cases carry a "
+          "malformed rule (empty rule map, connection alternative without constraints, misplaced slots-per-plug). Each case "
+          "is run three times on the real code: as is, with a deny alternative added to every rule, with the rules below the "
+          "deciding level replaced. Non-trivial = some level has a rule for the interface and the declarations compile."),
     exhaustive=dict(quick=False, thorough=False),
-    trusted_base=[],
-    assumptions=[],
+    trusted_base=[
+        "hand-written model coq/models/Policy.v of interfaces/policy/{policy,helpers}.go, asserts/ifacedecls.go (rule compilation: shortcuts, defaults, alternatives) and asserts/constraint.go (attribute matchers, device scope), tied by the differential run (harness/overlay/zzverif/c21)",
+        "the driver classifies leaf strings of attribute constraints ($MISSING, $SLOT(), $PLUG(), $*_PUBLISHER_ID, literal) and projects snap.Info.Type() to a string; Go regexp is not modelled: generated name/attribute patterns are literals over [a-z0-9-]",
+        "release.OnClassic / release.ReleaseInfo / release.OnCoreDesktop are set by the driver (exported variables)",
+    ],
+    assumptions=[
+        "regular expressions in plug-names/slot-names and attribute constraints are restricted to literals (model and generator); the full regexp language is outside the model",
+        "attribute values are strings, bools, int64, lists and string-keyed maps (no nil, no floats)",
+        "plugs-per-slot is not modelled (the code normalises it to `*` and never reads it)",
+        "InstallCandidateMinimalCheck (--dangerous installs) is not modelled",
+    ],
 )
